@@ -136,7 +136,7 @@ def lean_build(pid: str, timeout=1500):
         for f, line, _ in errs:
             line = int(line)
             hit = [n for (n, a, b) in spans if a <= line <= b]
-            if hit:
+            if hit and all(h in names for h in hit):
                 failed.update(hit)
             else:
                 failed = set(names)
